@@ -2,6 +2,7 @@
 From Coq Require Import NArith List String Ascii Bool.
 From P9V Require Import Base.Str gen.ConstGen gen.HandlerGen Server.State Server.Msg Server.Handlers
   Server.Summaries Server.NameProofs Server.SummaryProofs Server.Refine Server.DirsHist.
+From P9V Require Import Server.SafeNamePrims gen.SafeNameGen Server.SafeNameTie.
 Import ListNotations.
 Open Scope N_scope.
 
@@ -10,6 +11,13 @@ Theorem C09_checkSafeName : forall s,
   safe_nameb s = true <-> (s <> ""%string /\ s <> "."%string /\ s <> ".."%string /\ ~ In "/"%char (list_ascii_of_string s)).
 Proof. exact safe_nameb_spec. Qed.
 Print Assumptions C09_checkSafeName.
+
+(** TIE BY TRANSLATION: gen/SafeNameGen.v holds checkSafeName as go2coq TRANSLATED it from p9/handlers.go on this
+    run (true = nil, false = an error); it IS [safe_nameb], for every string (strings.Contains is the substring
+    search of Server/SafeNamePrims.v: a hand model of the standard library, trusted) *)
+Theorem C09_source_checkSafeName_is_model : forall s, gen_checkSafeName s = safe_nameb s.
+Proof. exact gen_checkSafeName_is_model. Qed.
+Print Assumptions C09_source_checkSafeName_is_model.
 
 (** from any state whose path tree holds safe names, for every request and every oracle tape:
     every path-component argument of every backend call is safe, and every Walk/WalkGetAttr call
